@@ -224,6 +224,10 @@ class IMAPConnection:
                         'Invalid authentication response.') from exc
                 else:
                     responses.append(ChallengeResponse(chal.data, resp_dec))
+            except UnicodeError as exc:
+                # the mechanism decodes the client's response as UTF-8
+                raise AuthenticationError(
+                    'Invalid authentication response.') from exc
             else:
                 if final is not None:
                     cont = ResponseContinuation(b64encode(final))
